@@ -307,7 +307,7 @@ func (gi *gitlabImporter) ensureIssueEvent(repo *cache.RepoCache, b *cache.BugCa
 		_, err = b.ForceChangeLabelsRaw(
 			author,
 			event.CreatedAt().Unix(),
-			[]string{event.(LabelEvent).Label.Name},
+			[]string{text.CleanupOneLine(event.(LabelEvent).Label.Name)},
 			nil,
 			map[string]string{
 				metaKeyGitlabId: event.ID(),
@@ -324,7 +324,7 @@ func (gi *gitlabImporter) ensureIssueEvent(repo *cache.RepoCache, b *cache.BugCa
 			author,
 			event.CreatedAt().Unix(),
 			nil,
-			[]string{event.(LabelEvent).Label.Name},
+			[]string{text.CleanupOneLine(event.(LabelEvent).Label.Name)},
 			map[string]string{
 				metaKeyGitlabId: event.ID(),
 			},
